@@ -14,7 +14,7 @@ INDIC = [(0x0900, 0x0DFF)]
 
 
 REORDERING = [(0x0900, 0x0DFF), (0x1000, 0x109F), (0xAA60, 0xAA7F), (0xA9E0, 0xA9FF), (0x1780, 0x17FF), (0x0F00, 0x0FFF),
-              (0x1A00, 0x1AAF), (0x1B00, 0x1C4F), (0xA800, 0xA8FF), (0xA900, 0xA9DF), (0xAA00, 0xAA5F), (0xAA80, 0xAADF),
+              (0x1A00, 0x1AAF), (0x1B00, 0x1C4F), (0xA800, 0xA8FF), (0xA900, 0xA95F), (0xA980, 0xA9DF), (0xAA00, 0xAA5F), (0xAA80, 0xAADF),
               (0xABC0, 0xABFF), (0x11000, 0x11FFF), (0x1900, 0x19FF), (0x1800, 0x18AF), (0x0700, 0x07FF)]
 OPPOSITE = {"rtl": "ltr", "ltr": "rtl", "btt": "ttb", "ttb": "btt"}
 
